@@ -4,11 +4,12 @@ CONSTANTS
   Ds = {1, 4}
   W = 3
   H = 2
-  Tops = {0, 5, 8, 11, 16, 19}
+  Tops = {0, 5, 8, 13}
   TopShift = 5
-  Heights = {3, 8, 13, 16, 27}
-  XLs = {0, 1, 9, 13, 17}
-  XRs = {20, 25, 33, 41}
+  Heights = {8, 13, 27, 32}
+  XLs = {0, 1, 9, 17}
+  XRs = {25, 41}
+  XMs = {17, 20}
   Exts = {0, 3}
   QStale = FALSE
   QExact0 = FALSE
